@@ -2,5 +2,5 @@ From Coq Require Import Extraction ExtrOcamlBasic.
 From PV Require Import Lib.ExtBase C05.Model.
 Extraction "model.ml" ext_base_z ext_base_n ext_base_nat ext_base_res ext_base_list
   Path PathOr clean join2 baseOf dirOf dec attachmentName attachmentOutputPath attachmentOutputPaths
-  attachmentReservationPath writeAttachments imageFileName fontFileName bookmarkFileName
+  attachmentReservationPath writeAttachments nameTooLong imageFileName fontFileName bookmarkFileName
   multiFillCSVName gobFileName classRange decode encode.
